@@ -199,10 +199,20 @@ def inequality(ctx, F):
     # tautologies
     site = 'write_inequality#tautology'
     sym = {}
+    shown = []
     for bb, e, t in displayed(b, R):
+        if e[0] == 'phi' and len(e) > 2 and all(a[0] == 'const' for a in e[2]):
+            # the symbol is chosen into a variable first: each alternative under the guards of its assignment (plus those of the write)
+            from ..mir import phi_table
+            for v, dl, dbb in phi_table(b, R, e[1]):
+                shown.append((v, list(dl) + list(literals(b, R, bb))))
+        else:
+            shown.append((e, literals(b, R, bb)))
+    for e, lits in shown:
         if e[0] == 'const' and e[1] in ('⊤', '⊥'):
-            lits = literals(b, R, bb)
-            ge = [l for l in lits if l[1][0] == 'bin' and l[1][1] == 'Ge' and l[1][2] == ('param', 'bias') and l[1][3] == ('const', 0.0)]
+            # polarity of `bias >= 0.0` on this path, in whichever spelling the guard is written
+            ge = [('true',) for op_, x_, y_ in prune.cmp_facts(lits) if op_ == 'Ge' and x_ == ('param', 'bias') and y_ == ('const', 0.0)] + \
+                 [('false',) for op_, x_, y_ in prune.cmp_facts(lits) if op_ == 'Lt' and x_ == ('param', 'bias') and y_ == ('const', 0.0)]
             allz = any(l[0] == 'true' and is_call(l[1], 'Iterator::all') for l in lits)
             opt = any(l[0] == 'true' and l[1] == ('field', ('param', 'options'), 'simplify_tautologies') for l in lits)
             sym[e[1]] = (ge[0][0] if ge else None, allz, opt)
